@@ -46,8 +46,8 @@ def ekind(e):
 
 
 # --------------------------------------------------------------------------- tokens
-INT_RE = re.compile(r"^-?\d+$")
-FIX_RE = re.compile(r"^-?\d+\.\d{6}$")
+INT_RE = re.compile(r"^-?[0-9]+$")
+FIX_RE = re.compile(r"^-?[0-9]+\.[0-9]{6}$")
 
 
 def classify(tok, first):
@@ -220,6 +220,8 @@ def fin(x):
     x = float(x)
     if math.isnan(x):
         return "n"
+    if math.isinf(x):
+        return "+inf" if x > 0 else "-inf"
     fr = Fraction(abs(x))
     return ("-" if math.copysign(1.0, x) < 0 else "+") + f"{fr.numerator}/{fr.denominator}"
 
@@ -240,6 +242,8 @@ def fval_tok(x):
     x = float(x)
     if math.isnan(x):
         return "nan"
+    if math.isinf(x):
+        return "+inf" if x > 0 else "-inf"
     return ("-" if math.copysign(1.0, x) < 0 else "+") + str(round(abs(x) * 1e6))
 
 
@@ -286,13 +290,13 @@ def loadT_line(acc, raw, deflim=None, fill="p"):
 
 def in_reader_domain(raw):
     """False if some token is accepted by Python's int()/float() but lies outside the model's reader domain
-    (−?digits, −?digits.dddddd, nan), or the text is not ASCII"""
+    (−?ASCII digits, −?digits.dddddd, nan, inf, -inf), or the bytes are not valid UTF-8 (Python: UnicodeDecodeError)"""
     import io
     for n in NAMES3:
         if raw[n] is None:
             continue
         try:
-            text = raw[n].decode("ascii")
+            text = raw[n].decode("utf-8")
         except UnicodeDecodeError:
             return False
         for line in io.StringIO(text, newline=None):
@@ -305,8 +309,15 @@ def in_reader_domain(raw):
                     continue
                 if n == "traj.txt" and k == 1:
                     continue
+                if t in ("inf", "-inf") and not (n == "traj.txt" or k == 0):
+                    continue        # float() columns only: int('inf') is a ValueError in model and code alike
                 try:
                     float(t)
+                    return False
+                except ValueError:
+                    pass
+                try:
+                    int(t)
                     return False
                 except ValueError:
                     pass
@@ -319,9 +330,9 @@ def compare_text_store(ctx, case, raw, acc, moved, loaded_t, out_line, fn="store
     secs = dict((x[:1], x[2:].strip()) for x in out_line.split(" | "))
     for name, key in (("traj.txt", "T"), ("order.txt", "O"), ("energy.txt", "E")):
         if hexb(raw[name]) != secs[key]:
-            model_text = bytes.fromhex("" if secs[key] == "-" else secs[key]).decode("latin1")
-            ctx.disagree({"fn": fn + ":" + name + " (text)", "case": case}, (raw[name] or b"").decode("latin1"), model_text)
-    model_acc = sorted(bytes.fromhex(x).decode("latin1") for x in secs["A"].split())
+            model_text = bytes.fromhex("" if secs[key] == "-" else secs[key]).decode("utf-8", "replace")
+            ctx.disagree({"fn": fn + ":" + name + " (text)", "case": case}, (raw[name] or b"").decode("utf-8", "replace"), model_text)
+    model_acc = sorted(bytes.fromhex(x).decode("utf-8") for x in secs["A"].split())
     if model_acc != acc:
         ctx.disagree({"fn": fn + ":accepted", "case": case}, acc, model_acc)
     if moved is not None and secs["M"] != moved:
@@ -597,7 +608,9 @@ def part_a_limits(ctx, tmp):
 def gen_float(rng):
     """floats that are NOT k·10⁻⁶: dyadic ties of '{:.6f}' (odd multiples of 2⁻⁷·5⁻⁶·… e.g. 1/128), tiny negatives
     ('-0.000000'), −0.0, values that overflow the column width, NaN; ≤ 15 significant digits in the file"""
-    kind = rng.choice(["tie", "tie", "dyadic", "dyadic", "tiny", "negzero", "wide", "nan", "plain", "half-ulp"])
+    kind = rng.choice(["tie", "tie", "dyadic", "dyadic", "tiny", "negzero", "wide", "nan", "plain", "half-ulp", "inf"])
+    if kind == "inf":       # '{:.6f}' prints inf / -inf, float() reads them back
+        return rng.choice([float("inf"), float("-inf")])
     if kind == "tie":       # x·10⁶ = n + ½ exactly  ⇔  x = (2n+1)·5⁶/(2⁷·5⁶·…): odd multiples of 1/128 are representable
         return rng.choice([-1, 1]) * (2 * rng.randrange(0, 5000) + 1) / 128.0
     if kind == "dyadic":
@@ -619,12 +632,30 @@ def fhex(x):
     return None if x is None else "nan" if math.isnan(x) else float(x).hex()
 
 
-def gen_text_case(rng, k):
+# every character str.split()/strip() treat as white space that can stand in a file name (no '\n', '\r', '/')
+WS_IN_NAMES = ["\u00a0", "\u0085", "\u1680", "\u2000", "\u2003", "\u200a", "\u2028", "\u2029", "\u202f", "\u205f", "\u3000",
+               "\x1c", "\x1f", "\x0b", "\x0c", "\t", " "]
+LETTERS_IN_NAMES = ["é", "ß", "Ω", "中", "😀", "\u200b", "\u180e", "\ufeff", "\u00ad", "ı̇"]   # NOT white space for Python
+
+
+def gen_text_case(rng, k, names="ascii"):
+    """names: 'ascii' | 'letters' (non-ASCII, not white space: must round-trip) | 'ws' (a white-space character of
+    Python's complete set inside / at the end / at the start of one basename: the archive must fail to load in the
+    model exactly as in the code)"""
     nfr = rng.choice([1, 2, 3, 5, 8])
     nfiles = rng.randint(1, min(3, nfr))
     long_name = rng.random() < 0.3
     files = [(f"w{j % 2}", (f"a_very_long_trajectory_file_name_{k}_{j}_trajF.lammpstrj" if long_name else f"e{k % 10}_{j}_traj{'BF'[j % 2]}.xyz"))
              for j in range(nfiles)]
+    if names == "letters":
+        files = [(d, rng.choice(LETTERS_IN_NAMES) + b[:3] + rng.choice(LETTERS_IN_NAMES) + b[3:] + rng.choice(["", rng.choice(LETTERS_IN_NAMES)]))
+                 for d, b in files]
+    elif names == "ws":
+        j = rng.randrange(nfiles)
+        d, b = files[j]
+        w = WS_IN_NAMES[k % len(WS_IN_NAMES)]
+        where = ("inside", "end", "start")[(k // len(WS_IN_NAMES)) % 3]
+        files[j] = (d, b[:4] + w + b[4:] if where == "inside" else b + w if where == "end" else w + b)
     ncol = rng.choice([1, 2, 3])
     frames = []
     for i in range(nfr):
@@ -635,7 +666,12 @@ def gen_text_case(rng, k):
         frames.append({"dir": d, "base": b, "idx": idx, "rev": rng.random() < 0.4, "order": [], "vpot": None, "ekin": None,
                        "of": [fhex(gen_float(rng)) for _ in range(ncol)], "vf": fhex(vp), "kf": fhex(ek)})
     gen = rng.choice([("sh", 0.5, 3, 10), ("wf", 1.25, 0, 7), ("ld", float("nan"), 0, 0), "ki", None, ("s+", -0.0, 1, 2)])
-    return {"step": rng.choice([0, 7, 123456789, rng.randrange(0, 10 ** 5)]), "pn": rng.randrange(0, 500), "gen": gen, "frames": frames}
+    if names != "ascii":
+        gen = rng.choice([gen, ("shé", 0.5, "\u00a0x", 1), "中\u2003文"])      # non-ASCII text in the comment line is harmless
+    out = {"step": rng.choice([0, 7, 123456789, rng.randrange(0, 10 ** 5)]), "pn": rng.randrange(0, 500), "gen": gen, "frames": frames}
+    if names != "ascii":
+        out["names"] = names
+    return out
 
 
 TEXT_DAMAGE = ["tabs", "crlf", "cr-only", "no-final-newline", "trailing-blank-lines", "leading-blank-lines", "comment-mid-rows",
@@ -708,8 +744,15 @@ def part_a_text(ctx, tmp):
     recs = []
     n_float = 80 if ctx.quick else 800
     n_dmg = 180 if ctx.quick else 1800
-    for k in range(n_float + n_dmg):
-        case = gen_text_case(rng, k)
+    n_ws = 51 if ctx.quick else 510          # 17 white-space characters × 3 positions
+    n_let = 20 if ctx.quick else 200
+    for k in range(n_float + n_dmg + n_ws + n_let):
+        if k < n_float + n_dmg:
+            case = gen_text_case(rng, k, "letters" if k % 9 == 4 else "ascii")
+        elif k < n_float + n_dmg + n_ws:
+            case = gen_text_case(rng, k - n_float - n_dmg, "ws")
+        else:
+            case = gen_text_case(rng, k, "letters")
         root = os.path.join(tmp, f"t{k}")
         os.makedirs(root)
         load = os.path.join(root, "load")
@@ -720,14 +763,16 @@ def part_a_text(ctx, tmp):
             p = build_path(case, root, Path, System)
             moved = ps.output(case["step"], {"path": p, "dir": load})
             rec["moved"] = f"{'-' if moved.maxlen is None else moved.maxlen} {moved.length}"
-            if k >= n_float:
+            if n_float <= k < n_float + n_dmg:
                 rec["damage"] = TEXT_DAMAGE[(k - n_float) % len(TEXT_DAMAGE)]
                 rec["damaged_file"] = text_damage(rec["damage"], pdir, rng)
             rec["raw"] = raw_files(pdir)
             rec["acc"] = sorted(os.listdir(acc))
             lp = load_path(pdir)
             rec["loaded_t"] = show_loaded_t(lp, acc)
-            if "damage" not in rec:
+            if case.get("names") == "ws":
+                rec["ws_loaded"] = True      # judged below: a name that str.split() cuts cannot come back whole
+            elif "damage" not in rec:
                 rec["pred"] = roundtrip_predicate(case, lp, acc, root)
                 # second trip: the LOADED floats (the doubles nearest to the decimals) are written again
                 pn2 = case["pn"] + 1000
@@ -746,7 +791,7 @@ def part_a_text(ctx, tmp):
                     rec["pred2"] = "the rows of order.txt / energy.txt written from the loaded path differ from the first archive's"
         except Exception as e:  # noqa: BLE001
             rec.setdefault("loaded_t", ekind(e))
-            if "damage" not in rec:
+            if "damage" not in rec and case.get("names") != "ws":
                 rec["pred"] = f"raised {type(e).__name__}: {e}"
         recs.append(rec)
         shutil.rmtree(root, ignore_errors=True)
@@ -771,7 +816,10 @@ def part_a_text(ctx, tmp):
         outs = dict(zip(keys, ctx.driver(lines))) if lines else {}
     for k, rec in enumerate(recs):
         case, dmg = rec["case"], rec.get("damage")
-        ctx.count(1, branch="A:text:" + (dmg or "floats"))
+        ctx.count(1, branch="A:text:" + (dmg or ("floats" if "names" not in case else "names-" + case["names"])))
+        if rec.get("ws_loaded"):
+            # the real load_path returned a path although a basename holds white space: then it cannot be the stored one
+            ctx.hit("A:text:ws-name-loaded-anyway")
         ctx.distinct(("Atext", dmg, repr(case)))
         rep = {"part": "A", "case": case}
         if dmg is None:
@@ -793,7 +841,7 @@ def part_a_text(ctx, tmp):
                         "loaded": rec.get("loaded_t", "")[:120]})
     # the rounding rule itself on further floats: '{:.6f}' against round6
     xs = [gen_float(rng) for _ in range(300 if ctx.quick else 5000)]
-    xs = [abs(x) for x in xs if not math.isnan(x)]
+    xs = [abs(x) for x in xs if math.isfinite(x)]
     if ctx._driver_ok and xs:
         from fractions import Fraction
         ans = ctx.driver([f"round6 {Fraction(x).numerator} {Fraction(x).denominator}" for x in xs])
@@ -802,6 +850,29 @@ def part_a_text(ctx, tmp):
             code = f"{x:.6f}".replace(".", "").lstrip("0") or "0"
             if a != code:
                 ctx.disagree({"fn": "'{:.6f}'.format", "x": x.hex()}, code, a)
+
+
+def part_a_tables(ctx):
+    """two small total tables of the model against Python itself, exhaustively on every run:
+    (1) the white-space set of the text model = {c : chr(c).isspace()} = what str.split() separates at = what str.strip()
+        removes, over ALL code points; (2) stemOf = os.path.splitext(name)[0] for every name of length ≤ 5 (6 in the
+        thorough tier) over the alphabet . a b _ (dots at every position, several dots, leading dots, no dot)"""
+    py_ws = [c for c in range(0x110000) if not 0xD800 <= c < 0xE000 and chr(c).isspace()]
+    py_split = [c for c in range(0x110000) if not 0xD800 <= c < 0xE000 and ("a" + chr(c) + "b").split() != ["a" + chr(c) + "b"]]
+    py_strip = [c for c in range(0x110000) if not 0xD800 <= c < 0xE000 and (chr(c) + "b" + chr(c)).strip() != chr(c) + "b" + chr(c)]
+    ctx.count(1, branch="A:table:white-space-set")
+    if not (py_ws == py_split == py_strip):
+        ctx.fail("C14:python-white-space-sets-differ", "str.isspace / split() / strip() disagree on the white-space set", {"part": "A-tables"})
+    names = ["".join(t) for L in range(1, 6 if ctx.quick else 7) for t in itertools.product(".ab_", repeat=L)]
+    if ctx._driver_ok:
+        out = ctx.driver(["wsset"] + ["stem " + hexs(n) for n in names])
+        model_ws = [int(x) for x in out[0].split()]
+        if model_ws != py_ws:
+            ctx.disagree({"fn": "isWs (white-space set of strip/split)"}, [hex(c) for c in py_ws], [hex(c) for c in model_ws])
+        for n, o in zip(names, out[1:]):
+            if os.path.splitext(n)[0] != o:
+                ctx.disagree({"fn": "os.path.splitext (stemOf)", "name": n}, os.path.splitext(n)[0], o)
+    ctx.count(len(names), branch="A:table:splitext")
 
 
 # --------------------------------------------------------------------------- part A, file operations of _move_path
@@ -813,10 +884,15 @@ def gen_move_case(rng, k):
     ndirs = rng.randint(1, 3)
     nfiles = rng.randint(1, 4)
     collide = k % 7 == 6 and ndirs > 1 and nfiles > 1
+    pn = rng.randrange(0, 30)
+    # src == dest: a frame's file (and maybe its side files) already lies in the target directory load/<pn>/accepted
+    indest = k % 11 == 10 and not collide
     names = rng.sample(MOVE_NAMES, nfiles)
     files = []
     for j in range(nfiles):
         d = f"w{rng.randrange(ndirs)}"
+        if indest and j == 0:
+            d = os.path.join("load", str(pn), "accepted")
         files.append([d, names[j]])
     if collide:
         files[1][1] = files[0][1]
@@ -829,10 +905,10 @@ def gen_move_case(rng, k):
                    if rng.random() < 0.45} - set(files))
     used = list(dict.fromkeys(order))
     stale = sorted({rng.choice(used)[1] for _ in range(1)} | ({os.path.splitext(rng.choice(used)[1])[0] + ".adp"} if rng.random() < 0.5 else set())) \
-        if rng.random() < 0.25 else []
-    missing = rng.choice(used) if k % 19 == 18 else None
+        if rng.random() < 0.25 and not indest else []
+    missing = rng.choice(used) if k % 19 == 18 and not indest else None
     return {"files": files, "frames": order, "keep": keep, "side": side, "stale": stale, "missing": missing,
-            "collide": collide, "maxlen": rng.choice([None, nfr, nfr + 1, 10000]), "pn": rng.randrange(0, 30)}
+            "collide": collide, "indest": indest, "maxlen": rng.choice([None, nfr, nfr + 1, 10000]), "pn": pn}
 
 
 def run_move_case(case, root):
@@ -851,7 +927,7 @@ def run_move_case(case, root):
     load = os.path.join(root, "load")
     accrel = os.path.join("load", str(case["pn"]), "accepted")
     acc = os.path.join(root, accrel)
-    os.makedirs(acc)
+    os.makedirs(acc, exist_ok=True)
     for n in case["stale"]:
         with open(os.path.join(acc, n), "w") as fh:
             fh.write(f"{cnt}\n")
@@ -936,8 +1012,8 @@ def part_a_move(ctx, tmp):
             if "harness" not in rec and o2 != rec.get("loaded"):
                 ctx.disagree({"fn": "outputThenLoad (PathStorage.output on the file system, then load_path)", "case": case}, rec.get("loaded"), o2)
     for k, (case, rec) in enumerate(zip(cases, recs)):
-        kind = "missing-source" if case["missing"] else "same-basename" if case["collide"] else "stale-dest" if case["stale"] else \
-            "keep" if case["keep"] else "plain"
+        kind = "missing-source" if case["missing"] else "same-basename" if case["collide"] else "src-is-dest" if case.get("indest") else \
+            "stale-dest" if case["stale"] else "keep" if case["keep"] else "plain"
         ctx.count(1, branch="A:move:" + kind)
         ctx.distinct(("Amove", repr(case)))
         if "harness" in rec:
@@ -955,7 +1031,7 @@ def part_a_move(ctx, tmp):
                         bad = f"frame file {d}/{n} is referenced as {md}/{mn}, not under {rec['accrel']}"
                     elif rec["after"].get((rec["accrel"], n)) != rec["before"].get((d, n)):
                         bad = f"{rec['accrel']}/{n} is missing or holds another file's content"
-                    elif (d, n) in rec["after"]:
+                    elif (d, n) in rec["after"] and d != rec["accrel"]:
                         bad = f"source {d}/{n} is still there (copied, not moved)"
                     if bad:
                         break
@@ -1104,7 +1180,9 @@ def part_a(ctx, tmp):
                 rec["extra"].append(("C14:output-modifies-input-path", "PathStorage.output changed the path object it was given"))
             rec["moved_ok"] = all(not os.path.exists(s) for s in srcs) and \
                 sorted(os.listdir(acc)) == sorted({os.path.basename(s) for s in srcs}) and \
-                all(os.path.dirname(s.config[0]) == acc for s in moved.phasepoints) and moved.length == p.length
+                all(os.path.dirname(s.config[0]) == acc for s in moved.phasepoints) and moved.length == p.length and \
+                [(os.path.basename(s.config[0]), s.config[1], s.vel_rev) for s in moved.phasepoints] == \
+                [(os.path.basename(s.config[0]), s.config[1], s.vel_rev) for s in p.phasepoints]
             rec["files"] = {n: file_tokens(os.path.join(pdir, n)) for n in ("traj.txt", "order.txt", "energy.txt")}
             rec["raw"] = raw_files(pdir)
             rec["moved"] = f"{'-' if moved.maxlen is None else moved.maxlen} {moved.length}"
@@ -1287,8 +1365,10 @@ def mkstate(REPEX_state, n_ens, workers, out, seed):
     return st
 
 
-def new_path(Path, System, wdir, tag, orders, nfiles, extra):
-    """a trial path owning `nfiles` real files in wdir; extra[k] = extensions of side files of file k"""
+def new_path(Path, System, wdir, tag, orders, nfiles, extra, alternate=False):
+    """a trial path owning `nfiles` real files in wdir; extra[k] = extensions of side files of file k;
+    alternate: frame i uses file i mod nfiles (the path comes BACK to a file after using another one, as a
+    backward + forward + backward-file path does) instead of block-wise"""
     p = Path(maxlen=100)
     names = [os.path.join(wdir, f"{tag}_f{k}.xyz") for k in range(nfiles)]
     for k, nm in enumerate(names):
@@ -1300,7 +1380,7 @@ def new_path(Path, System, wdir, tag, orders, nfiles, extra):
     for i, o in enumerate(orders):
         s = System()
         s.order = [float(o)]
-        s.config = (names[(i * nfiles) // len(orders)], i)
+        s.config = (names[i % nfiles if alternate else (i * nfiles) // len(orders)], i)
         s.vel_rev = bool(i % 2)
         p.phasepoints.append(s)
     p.generated = ("sh", 0.5, 1, len(orders))
@@ -1316,6 +1396,18 @@ def listing(load):
         for f in files:
             out.append(os.path.normpath(os.path.join(rel, f)))
     return sorted(out)
+
+
+def traj_txt_names(load):
+    """pn -> the file names the rows of the real load/pn/traj.txt refer to (second column of the non-comment lines)"""
+    out = {}
+    for d in os.listdir(load):
+        f = os.path.join(load, d, "traj.txt")
+        if d.isdigit() and os.path.isfile(f):
+            with open(f, encoding="utf-8") as fh:
+                rows = [ln.split() for ln in fh if ln.strip() and not ln.strip().startswith("#")]
+            out[int(d)] = sorted({r[1] for r in rows if len(r) > 1})
+    return out
 
 
 def run_history(h, mods, tmp):
@@ -1335,6 +1427,10 @@ def run_history(h, mods, tmp):
             out["keep_traj_fnames"] = list(h["keep"])
         if h["delete_old"] is None:
             del out["delete_old"], out["delete_old_all"]
+        if h.get("screen"):
+            # output.screen = k > 0: every k-th step is printed (print_shooted / print_state run inside treat_output,
+            # between the deletions and write_toml); the restart file must be rewritten after EVERY call all the same
+            out["screen"] = h["screen"]
         st = mkstate(REPEX_state, n_ens, h["workers"], out, h["seed"])
         st.traj_data = {}      # REPEX_state.traj_data is a class-level dict: a real run starts with it empty
         os.makedirs("w")
@@ -1389,6 +1485,11 @@ def run_history(h, mods, tmp):
             stale_sel = step[3] if len(step) > 3 else None
             md = inflight.pop(which % len(inflight))
             md["status"] = "ACC" if acc else "REJ"
+            # what run_md would have added (only read by print_shooted on printed steps)
+            md.setdefault("moves", ["sh"] * len(md["picked"]))
+            md.setdefault("trial_len", [3] * len(md["picked"]))
+            md.setdefault("trial_op", [(-0.5, 0.5)] * len(md["picked"]))
+            md.setdefault("md_start", 0.0)
             ops_here = [("X",)] if obs.pop("pending_x", False) else []     # the restart taken after the previous call
             if stale_sel is not None:
                 # a stale file (as left by an interrupted store) appears in some existing accepted/ directory
@@ -1403,10 +1504,10 @@ def run_history(h, mods, tmp):
                 for j, ens_num in enumerate(md["picked"]):
                     nfiles, extra = shape[j % len(shape)]
                     if ens_num == -1:
-                        p = new_path(Path, System, md["w_folder"], f"s{k}e{j}", [0.5, -0.5, 0.5], nfiles, extra)
+                        p = new_path(Path, System, md["w_folder"], f"s{k}e{j}", [0.5, -0.5, 0.5], nfiles, extra, alternate=k % 2 == 1)
                         p.weights = (1.0,)
                     else:
-                        p = new_path(Path, System, md["w_folder"], f"s{k}e{j}", [-0.5, n_ens - 0.5, -0.5], nfiles, extra)
+                        p = new_path(Path, System, md["w_folder"], f"s{k}e{j}", [-0.5, n_ens - 0.5, -0.5], nfiles, extra, alternate=k % 2 == 1)
                         p.weights = tuple([1.0] * (n_ens - 1) + [0.0])
                     pn_old = md["picked"][ens_num]["pn_old"]
                     files = sorted({os.path.basename(s.config[0]) for s in p.phasepoints})
@@ -1428,7 +1529,7 @@ def run_history(h, mods, tmp):
                     active = ekind(e)
             state = {"err": None if err is None else ekind(err), "live": sorted(st.live_paths()),
                      "olds": [int(x) for x in st.pn_olds], "restart": active if isinstance(active, str) else sorted(active),
-                     "disk": listing("load")}
+                     "disk": listing("load"), "txt": traj_txt_names("load")}
             obs["ops"].append(ops_here)
             obs["states"].append(state)
             # ---- property predicates on the real files
@@ -1458,6 +1559,24 @@ def run_history(h, mods, tmp):
                 miss = [a for a in st.traj_data[pn]["adress"] if not os.path.isfile(a)]
                 if loads[pn] is not None or miss:
                     obs["fails"].append(("C14:live-path-lost-file", f"live path {pn}: load_path → {loads[pn]}, missing {miss}", where))
+            # the live path OBJECT (what PathStorage.output returned and add_traj installed) and its stored form agree
+            # frame by frame: same file, index, velocity direction, all under the path's own directory
+            if err is None:
+                for tr in st._trajs[:-1]:
+                    pn = tr.path_number
+                    if loads.get(pn, 1) is not None:
+                        continue
+                    try:
+                        lp_ = load_path(os.path.join("load", str(pn)))
+                        obj = [(os.path.realpath(s_.config[0]), 0 if s_.config[1] is None else s_.config[1], bool(s_.vel_rev)) for s_ in tr.phasepoints]
+                        sto = [(os.path.realpath(s_.config[0]), s_.config[1], bool(s_.vel_rev)) for s_ in lp_.phasepoints]
+                        if obj != sto:
+                            bad_i = next((i for i, (a_, b_) in enumerate(zip(obj, sto)) if a_ != b_), min(len(obj), len(sto)))
+                            obs["fails"].append(("C14:live-path-object-differs-from-stored-form",
+                                                 f"live path {pn}: frame {bad_i} of the object in memory is {obj[bad_i] if bad_i < len(obj) else None}, "
+                                                 f"of load_path(load/{pn}) {sto[bad_i] if bad_i < len(sto) else None}", where))
+                    except Exception as e:  # noqa: BLE001
+                        obs["fails"].append(("C14:live-path-object-differs-from-stored-form", f"live path {pn}: {type(e).__name__}: {e}", where))
             for pn in ([] if isinstance(active, str) else active):
                 if loads[pn] is not None:
                     obs["fails"].append(("C14:restart-referenced-path-lost-file",
@@ -1521,6 +1640,8 @@ def run_history(h, mods, tmp):
                 obs["pending_x"] = True
                 obs["restarts"] = obs.get("restarts", 0) + 1
                 continue
+            if h.get("screen") is not None:
+                st.loop()        # the scheduler's `while state.loop():` — advances cstep, which printing() looks at
             inflight.append(st.prep_md_items(md))
     except Exception as e:  # noqa: BLE001   (a harness-side surprise must not hide what was already judged)
         obs["harness_error"] = f"{type(e).__name__}: {e}"
@@ -1535,7 +1656,7 @@ def hist_line(h, obs, variant="r"):
     """variant: r = the repaired delete_old_all branch (current /repo), a = as it was before commit 867b445"""
     n = h["n_ens"] + 1
     out = ["hist", str(n), "1" if h["delete_old"] else "0", "1" if h["delete_old_all"] else "0", variant,
-           lst(list(h["keep"] or [])), str(len(obs["init"]))]
+           lst(list(h["keep"] or []), hexs), str(len(obs["init"]))]
     for pn, names in obs["init"]:
         out += [str(pn), lst(names)]
     flat = [op for ops in obs["ops"][:obs.get("cut")] for op in ops]
@@ -1563,10 +1684,18 @@ def model_states(line_out, obs):
             res.append(None)
             continue
         s = take[-1]
-        m = re.match(r"^(\S+) live:(\S*) olds:(\S*) restart:(\S*) disk:(\S*)$", s)
+        m = re.match(r"^(\S+) live:(\S*) olds:(\S*) restart:(\S*) disk:(\S*) txt:(\S*)$", s)
         nums = lambda x: [int(v) for v in x.split(",") if v]  # noqa: E731
+        disk = sorted(set(v for v in m.group(5).split(",") if v))
+        # the model's record of what load/pn/traj.txt refers to, for the traj.txt files that exist in the model's disk
+        txt = {}
+        for ent in m.group(6).split(";"):
+            if ent:
+                pn, names = ent.split("=", 1)
+                if f"{pn}/traj.txt" in disk:
+                    txt[int(pn)] = sorted(set(n for n in names.split("+") if n))
         res.append({"err": None if m.group(1) == "ok" else m.group(1), "live": sorted(nums(m.group(2))), "olds": nums(m.group(3)),
-                    "restart": sorted(nums(m.group(4))), "disk": sorted(set(v for v in m.group(5).split(",") if v))})
+                    "restart": sorted(nums(m.group(4))), "disk": disk, "txt": txt})
     return res
 
 
@@ -1612,6 +1741,18 @@ def gen_histories(ctx):
                                                  rng.randrange(50) if rng.random() < 0.25 else None,
                                                  restart_here and rng.random() < 0.15) for _ in range(nsteps)],
                            "kind": "random"})
+                if r % 2 == 1:
+                    # the step counter runs (state.loop() before every job) and only every screen-th step is printed
+                    hs[-1]["screen"] = rng.choice([0, 1, 2, 3, 5, 7])
+    # output.screen: printed and unprinted steps, long accept runs with delete_old (every call must rewrite restart.toml)
+    for n_ens in ((2, 3) if ctx.quick else (2, 3, 4, 5)):
+        for screen in ((3, 5) if ctx.quick else (2, 3, 5, 10)):
+            for a in (False, True):
+                nsteps = 4 * n_ens + 8
+                hs.append({"n_ens": n_ens, "workers": 1, "seed": rng.randrange(1000), "delete_old": True, "delete_old_all": a,
+                           "keep": (".adp",), "screen": screen,
+                           "steps": [(rng.random() < 0.9, rng.randrange(8), shape(), None, False) for _ in range(nsteps)],
+                           "kind": "screen"})
     return hs
 
 
@@ -1622,9 +1763,11 @@ def part_b(ctx, tmp, only=None):
     outs = ctx.driver([hist_line(h, o, "r") for h, o in zip(hs, allobs)]) if ctx._driver_ok else None
     outs_old = ctx.driver([hist_line(h, o, "a") for h, o in zip(hs, allobs)]) if ctx._driver_ok else None
     nfail = 0
-    fields = ("err", "live", "olds", "restart", "disk")
+    fields = ("err", "live", "olds", "restart", "disk", "txt")
     for k, (h, obs) in enumerate(zip(hs, allobs)):
         key = f"B:n={h['n_ens']},del={h['delete_old']},all={h['delete_old_all']},keep={'y' if h['keep'] else 'n'}"
+        if h.get("screen"):
+            ctx.hit("B:histories-with-unprinted-steps(screen>1)" if h["screen"] > 1 else "B:histories-every-step-printed(screen=1)")
         ctx.count(len(obs["states"]), branch=key)
         ctx.hit("B:histories")
         if obs.get("restarts"):
@@ -1701,6 +1844,7 @@ def run(ctx):
         ctx.extra["part_a_limits_s"] = round(ctx.elapsed(), 1)
         part_a_text(ctx, tmp)
         ctx.extra["part_a_text_s"] = round(ctx.elapsed(), 1)
+        part_a_tables(ctx)
         part_a_move(ctx, tmp)
         ctx.extra["part_a_move_s"] = round(ctx.elapsed(), 1)
         part_a_lpfd(ctx, tmp)
@@ -1711,12 +1855,17 @@ def run(ctx):
         shutil.rmtree(tmp, ignore_errors=True)
     ctx.exhaustive = False
     ctx.assumptions += [
-        "file basenames are single tokens (no whitespace) and unique per source file within a path (engine names carry ensemble, pid and a counter)",
+        "file basenames are single tokens — none of the 29 characters str.split() separates at (ASCII white space AND U+0085, U+00A0, U+1680, U+2000–200A, U+2028/9, U+202F, U+205F, U+3000; the model's set is compared with chr(c).isspace()/split()/strip() over all code points on every run) — and unique per source file within a path (engine names carry ensemble, pid and a counter); names with such a character are generated too: the archive must fail to load (or lose the frame) in model and code alike; non-ASCII letters in names must round-trip",
+        "text is Unicode (files are UTF-8); digits are ASCII: tokens of non-ASCII digits that int()/float() accept are outside the model's reader domain and not compared",
+        "±inf order parameters / energies are inside the text model (written inf / -inf, read back); the token-level model (Infretis.Store) carries finite k·10⁻⁶ values and NaN only",
         "order parameters / energies fed are k·10⁻⁶ with |k| < 10¹⁰, so float(f'{x:.6f}') == x exactly; str.format/int()/float()/split() are not modelled (typed tokens)",
         "os.path.splitext(basename) splits the generated names at their single dot",
         "every frame of a path has the same number of order parameters (rows with another column count are skipped by read_some_lines)",
         "trial paths own fresh files in the worker directory (true of shoot / wire_fencing / retis_swap_zero: propagate and dump_phasepoint write new files)",
         "at most n−1 replacements per treat_output call (the code picks one or two ensembles; n ≥ 3)",
+        "the model's ghost record St.txt (what load/pn/traj.txt refers to — the `Intact` theorems speak about it) is compared with the names in the real traj.txt files after every call",
+        "the live path OBJECT in memory (returned by PathStorage.output, installed by add_traj) is compared frame by frame with load_path of its directory after every call; trial paths use their files block-wise or alternating (coming back to a file after another one)",
+        "output.screen: histories with 0, 1 and k > 1 (state.loop() advances cstep before every job, so only every k-th step is printed); os.fsync is stubbed during histories (FileIO.close fsyncs read handles; durability is C08's subject)",
         "pn_olds is not persisted: after a restart queued paths are never deleted (checked: their files must stay)",
         "object state is tie-only (the model is functional): ONE PathStorage stores every path of part A and each archive is compared byte-wise with a fresh object's; the loaded path is stored and loaded a second time; earlier loaded paths are re-read after later stores/loads (no aliasing)",
         "restarts between calls (1 worker): a new REPEX_state is built from restart.toml + load_paths_from_disk; the model takes the same restart (Infretis.Store.restartSt) and the state-for-state comparison goes on across it",
